@@ -288,6 +288,59 @@ func run(c *props.Ctx) {
 		}
 	}
 	runConc(c, len(cfgs))
+	if c.Shard == 0 {
+		lateResource(c)
+	}
+}
+
+// lateResource: the cap holds for a resource that is first entered when the process already tracks
+// the default maximum number of resources (10000) - a numeric threshold in the node storage that no
+// bounded history reaches from the initial state.
+func lateResource(c *props.Ctx) {
+	env.ResetAll(env.DefaultGeometry, 1700000000000)
+	for i := 0; i < int(base.DefaultMaxResourceAmount)+5; i++ {
+		stat.GetOrCreateResourceNode(fmt.Sprintf("x%05d", i), base.ResTypeCommon)
+	}
+	rule := &isolation.Rule{Resource: "late", MetricType: isolation.Concurrency, Threshold: 2}
+	if _, err := isolation.LoadRules([]*isolation.Rule{rule}); err != nil {
+		panic(err)
+	}
+	var live []*base.SentinelEntry
+	what := ""
+	step := func(name string, wantPass bool) {
+		if what != "" {
+			return
+		}
+		e, blk := sentinel.Entry("late")
+		if (blk == nil) != wantPass {
+			what = fmt.Sprintf("resource entered after %d other resources, rule N=2, %s: admitted=%v with %d entries in flight", base.DefaultMaxResourceAmount+5, name, blk == nil, len(live))
+		}
+		if e != nil {
+			live = append(live, e)
+		}
+		if n := stat.GetResourceNode("late"); what == "" && (n == nil || int(n.CurrentConcurrency()) != len(live)) {
+			what = fmt.Sprintf("resource entered after %d other resources, %s: in-flight gauge does not equal the %d live entries (node %v)", base.DefaultMaxResourceAmount+5, name, len(live), n != nil)
+		}
+	}
+	step("first", true)
+	step("second", true)
+	step("third", false)
+	if what == "" && len(live) > 0 {
+		live[0].Exit()
+		live = live[1:]
+	}
+	step("after one exit", true)
+	step("again at the cap", false)
+	for _, e := range live {
+		e.Exit()
+	}
+	c.R.Evaluations += 5
+	c.R.Transitions += 5
+	c.R.Outcome("late-resource")
+	c.R.Bounds["late_resource_after_resources"] = int(base.DefaultMaxResourceAmount) + 5
+	if what != "" {
+		c.R.Violate(report.Violation{Signature: "C04:late-resource", What: what, Scenario: "late resource", Replay: replayDoc{Kind: "late"}})
+	}
 }
 
 // ---- concurrent callers at admission-path granularity ----
